@@ -7,12 +7,12 @@ package volume
 
 //@ func ChaikinMoneyFlowStrategy.Compute
 //@ requires c.ChaikinMoneyFlow.Sum.Period >= 1 && consumed(snapshots) == 0
-//@ ensures[C06] "input-high" len(arg(Cmf_Compute, 0, 0)) == len(snapshots) && (forall k :: 0 <= k && k < len(snapshots) ==> arg(Cmf_Compute, 0, 0)[k] == snapshots[k].High)
-//@ ensures[C06] "input-low" len(arg(Cmf_Compute, 0, 1)) == len(snapshots) && (forall k :: 0 <= k && k < len(snapshots) ==> arg(Cmf_Compute, 0, 1)[k] == snapshots[k].Low)
-//@ ensures[C06] "input-close" len(arg(Cmf_Compute, 0, 2)) == len(snapshots) && (forall k :: 0 <= k && k < len(snapshots) ==> arg(Cmf_Compute, 0, 2)[k] == snapshots[k].Close)
-//@ ensures[C06] "input-volume" len(arg(Cmf_Compute, 0, 3)) == len(snapshots) && (forall k :: 0 <= k && k < len(snapshots) ==> arg(Cmf_Compute, 0, 3)[k] == snapshots[k].Volume)
-//@ ensures[C06] "positive-buys" forall k :: 0 <= k && k < len(res(Cmf_Compute, 0)) ==> (res(Cmf_Compute, 0)[k] > 0 ==> result[k + c.ChaikinMoneyFlow.IdlePeriod()] == 1)
-//@ ensures[C06] "negative-sells" forall k :: 0 <= k && k < len(res(Cmf_Compute, 0)) ==> (res(Cmf_Compute, 0)[k] < 0 ==> result[k + c.ChaikinMoneyFlow.IdlePeriod()] == 0 - 1)
+//@ guarantees[C06] "input-high" len(arg(Cmf_Compute, 0, 0)) == len(snapshots) && (forall k :: 0 <= k && k < len(snapshots) ==> arg(Cmf_Compute, 0, 0)[k] == snapshots[k].High)
+//@ guarantees[C06] "input-low" len(arg(Cmf_Compute, 0, 1)) == len(snapshots) && (forall k :: 0 <= k && k < len(snapshots) ==> arg(Cmf_Compute, 0, 1)[k] == snapshots[k].Low)
+//@ guarantees[C06] "input-close" len(arg(Cmf_Compute, 0, 2)) == len(snapshots) && (forall k :: 0 <= k && k < len(snapshots) ==> arg(Cmf_Compute, 0, 2)[k] == snapshots[k].Close)
+//@ guarantees[C06] "input-volume" len(arg(Cmf_Compute, 0, 3)) == len(snapshots) && (forall k :: 0 <= k && k < len(snapshots) ==> arg(Cmf_Compute, 0, 3)[k] == snapshots[k].Volume)
+//@ guarantees[C06] "positive-buys" forall k :: 0 <= k && k < len(res(Cmf_Compute, 0)) ==> (res(Cmf_Compute, 0)[k] > 0 ==> result[k + c.ChaikinMoneyFlow.IdlePeriod()] == 1)
+//@ guarantees[C06] "negative-sells" forall k :: 0 <= k && k < len(res(Cmf_Compute, 0)) ==> (res(Cmf_Compute, 0)[k] < 0 ==> result[k + c.ChaikinMoneyFlow.IdlePeriod()] == 0 - 1)
 //@ ensures[C05] "len" len(snapshots) >= (c.ChaikinMoneyFlow.IdlePeriod()) ==> len(result) == len(snapshots)
 //@ ensures[C05] "len-short" len(result) >= len(snapshots)
 //@ ensures[C05] "warmup-hold" forall kk :: 0 <= kk && kk < min((c.ChaikinMoneyFlow.IdlePeriod()), len(result)) ==> result[kk] == 0
@@ -23,11 +23,11 @@ package volume
 
 //@ func EaseOfMovementStrategy.Compute
 //@ requires e.EaseOfMovement.Sma.Period >= 1 && consumed(snapshots) == 0
-//@ ensures[C06] "input-high" len(arg(Emv_Compute, 0, 0)) == len(snapshots) && (forall k :: 0 <= k && k < len(snapshots) ==> arg(Emv_Compute, 0, 0)[k] == snapshots[k].High)
-//@ ensures[C06] "input-low" len(arg(Emv_Compute, 0, 1)) == len(snapshots) && (forall k :: 0 <= k && k < len(snapshots) ==> arg(Emv_Compute, 0, 1)[k] == snapshots[k].Low)
-//@ ensures[C06] "input-volume" len(arg(Emv_Compute, 0, 2)) == len(snapshots) && (forall k :: 0 <= k && k < len(snapshots) ==> arg(Emv_Compute, 0, 2)[k] == snapshots[k].Volume)
-//@ ensures[C06] "positive-buys" forall k :: 0 <= k && k < len(res(Emv_Compute, 0)) ==> (res(Emv_Compute, 0)[k] > 0 ==> result[k + e.EaseOfMovement.IdlePeriod()] == 1)
-//@ ensures[C06] "negative-sells" forall k :: 0 <= k && k < len(res(Emv_Compute, 0)) ==> (res(Emv_Compute, 0)[k] < 0 ==> result[k + e.EaseOfMovement.IdlePeriod()] == 0 - 1)
+//@ guarantees[C06] "input-high" len(arg(Emv_Compute, 0, 0)) == len(snapshots) && (forall k :: 0 <= k && k < len(snapshots) ==> arg(Emv_Compute, 0, 0)[k] == snapshots[k].High)
+//@ guarantees[C06] "input-low" len(arg(Emv_Compute, 0, 1)) == len(snapshots) && (forall k :: 0 <= k && k < len(snapshots) ==> arg(Emv_Compute, 0, 1)[k] == snapshots[k].Low)
+//@ guarantees[C06] "input-volume" len(arg(Emv_Compute, 0, 2)) == len(snapshots) && (forall k :: 0 <= k && k < len(snapshots) ==> arg(Emv_Compute, 0, 2)[k] == snapshots[k].Volume)
+//@ guarantees[C06] "positive-buys" forall k :: 0 <= k && k < len(res(Emv_Compute, 0)) ==> (res(Emv_Compute, 0)[k] > 0 ==> result[k + e.EaseOfMovement.IdlePeriod()] == 1)
+//@ guarantees[C06] "negative-sells" forall k :: 0 <= k && k < len(res(Emv_Compute, 0)) ==> (res(Emv_Compute, 0)[k] < 0 ==> result[k + e.EaseOfMovement.IdlePeriod()] == 0 - 1)
 //@ ensures[C05] "len" len(snapshots) >= (e.EaseOfMovement.IdlePeriod()) ==> len(result) == len(snapshots)
 //@ ensures[C05] "len-short" len(result) >= len(snapshots)
 //@ ensures[C05] "warmup-hold" forall kk :: 0 <= kk && kk < min((e.EaseOfMovement.IdlePeriod()), len(result)) ==> result[kk] == 0
@@ -38,10 +38,10 @@ package volume
 
 //@ func ForceIndexStrategy.Compute
 //@ requires f.ForceIndex.Ema.Period >= 1 && consumed(snapshots) == 0
-//@ ensures[C06] "input-close" len(arg(Fi_Compute, 0, 0)) == len(snapshots) && (forall k :: 0 <= k && k < len(snapshots) ==> arg(Fi_Compute, 0, 0)[k] == snapshots[k].Close)
-//@ ensures[C06] "input-volume" len(arg(Fi_Compute, 0, 1)) == len(snapshots) && (forall k :: 0 <= k && k < len(snapshots) ==> arg(Fi_Compute, 0, 1)[k] == snapshots[k].Volume)
-//@ ensures[C06] "positive-buys" forall k :: 0 <= k && k < len(res(Fi_Compute, 0)) ==> (res(Fi_Compute, 0)[k] > 0 ==> result[k + f.ForceIndex.IdlePeriod()] == 1)
-//@ ensures[C06] "negative-sells" forall k :: 0 <= k && k < len(res(Fi_Compute, 0)) ==> (res(Fi_Compute, 0)[k] < 0 ==> result[k + f.ForceIndex.IdlePeriod()] == 0 - 1)
+//@ guarantees[C06] "input-close" len(arg(Fi_Compute, 0, 0)) == len(snapshots) && (forall k :: 0 <= k && k < len(snapshots) ==> arg(Fi_Compute, 0, 0)[k] == snapshots[k].Close)
+//@ guarantees[C06] "input-volume" len(arg(Fi_Compute, 0, 1)) == len(snapshots) && (forall k :: 0 <= k && k < len(snapshots) ==> arg(Fi_Compute, 0, 1)[k] == snapshots[k].Volume)
+//@ guarantees[C06] "positive-buys" forall k :: 0 <= k && k < len(res(Fi_Compute, 0)) ==> (res(Fi_Compute, 0)[k] > 0 ==> result[k + f.ForceIndex.IdlePeriod()] == 1)
+//@ guarantees[C06] "negative-sells" forall k :: 0 <= k && k < len(res(Fi_Compute, 0)) ==> (res(Fi_Compute, 0)[k] < 0 ==> result[k + f.ForceIndex.IdlePeriod()] == 0 - 1)
 //@ ensures[C05] "len" len(snapshots) >= (f.ForceIndex.IdlePeriod()) ==> len(result) == len(snapshots)
 //@ ensures[C05] "len-short" len(result) >= len(snapshots)
 //@ ensures[C05] "warmup-hold" forall kk :: 0 <= kk && kk < min((f.ForceIndex.IdlePeriod()), len(result)) ==> result[kk] == 0
@@ -52,12 +52,12 @@ package volume
 
 //@ func MoneyFlowIndexStrategy.Compute
 //@ requires m.MoneyFlowIndex.Sum.Period >= 1 && consumed(snapshots) == 0
-//@ ensures[C06] "input-high" len(arg(Mfi_Compute, 0, 0)) == len(snapshots) && (forall k :: 0 <= k && k < len(snapshots) ==> arg(Mfi_Compute, 0, 0)[k] == snapshots[k].High)
-//@ ensures[C06] "input-low" len(arg(Mfi_Compute, 0, 1)) == len(snapshots) && (forall k :: 0 <= k && k < len(snapshots) ==> arg(Mfi_Compute, 0, 1)[k] == snapshots[k].Low)
-//@ ensures[C06] "input-close" len(arg(Mfi_Compute, 0, 2)) == len(snapshots) && (forall k :: 0 <= k && k < len(snapshots) ==> arg(Mfi_Compute, 0, 2)[k] == snapshots[k].Close)
-//@ ensures[C06] "input-volume" len(arg(Mfi_Compute, 0, 3)) == len(snapshots) && (forall k :: 0 <= k && k < len(snapshots) ==> arg(Mfi_Compute, 0, 3)[k] == snapshots[k].Volume)
-//@ ensures[C06] "above-sell-threshold-sells" forall k :: 0 <= k && k < len(res(Mfi_Compute, 0)) ==> (m.BuyAt < m.SellAt && res(Mfi_Compute, 0)[k] > m.SellAt ==> result[k + m.MoneyFlowIndex.IdlePeriod()] == 0 - 1)
-//@ ensures[C06] "below-buy-threshold-buys" forall k :: 0 <= k && k < len(res(Mfi_Compute, 0)) ==> (m.BuyAt < m.SellAt && res(Mfi_Compute, 0)[k] < m.BuyAt ==> result[k + m.MoneyFlowIndex.IdlePeriod()] == 1)
+//@ guarantees[C06] "input-high" len(arg(Mfi_Compute, 0, 0)) == len(snapshots) && (forall k :: 0 <= k && k < len(snapshots) ==> arg(Mfi_Compute, 0, 0)[k] == snapshots[k].High)
+//@ guarantees[C06] "input-low" len(arg(Mfi_Compute, 0, 1)) == len(snapshots) && (forall k :: 0 <= k && k < len(snapshots) ==> arg(Mfi_Compute, 0, 1)[k] == snapshots[k].Low)
+//@ guarantees[C06] "input-close" len(arg(Mfi_Compute, 0, 2)) == len(snapshots) && (forall k :: 0 <= k && k < len(snapshots) ==> arg(Mfi_Compute, 0, 2)[k] == snapshots[k].Close)
+//@ guarantees[C06] "input-volume" len(arg(Mfi_Compute, 0, 3)) == len(snapshots) && (forall k :: 0 <= k && k < len(snapshots) ==> arg(Mfi_Compute, 0, 3)[k] == snapshots[k].Volume)
+//@ guarantees[C06] "above-sell-threshold-sells" forall k :: 0 <= k && k < len(res(Mfi_Compute, 0)) ==> (m.BuyAt < m.SellAt && res(Mfi_Compute, 0)[k] > m.SellAt ==> result[k + m.MoneyFlowIndex.IdlePeriod()] == 0 - 1)
+//@ guarantees[C06] "below-buy-threshold-buys" forall k :: 0 <= k && k < len(res(Mfi_Compute, 0)) ==> (m.BuyAt < m.SellAt && res(Mfi_Compute, 0)[k] < m.BuyAt ==> result[k + m.MoneyFlowIndex.IdlePeriod()] == 1)
 //@ ensures[C05] "len" len(snapshots) >= (m.MoneyFlowIndex.IdlePeriod()) ==> len(result) == len(snapshots)
 //@ ensures[C05] "len-short" len(result) >= len(snapshots)
 //@ ensures[C05] "warmup-hold" forall kk :: 0 <= kk && kk < min((m.MoneyFlowIndex.IdlePeriod()), len(result)) ==> result[kk] == 0
@@ -68,10 +68,10 @@ package volume
 
 //@ func NegativeVolumeIndexStrategy.Compute
 //@ requires n.NegativeVolumeIndexEma.Period >= 1 && consumed(snapshots) == 0
-//@ ensures[C06] "input-close" len(arg(Nvi_Compute, 0, 0)) == len(snapshots) && (forall k :: 0 <= k && k < len(snapshots) ==> arg(Nvi_Compute, 0, 0)[k] == snapshots[k].Close)
-//@ ensures[C06] "input-volume" len(arg(Nvi_Compute, 0, 1)) == len(snapshots) && (forall k :: 0 <= k && k < len(snapshots) ==> arg(Nvi_Compute, 0, 1)[k] == snapshots[k].Volume)
-//@ ensures[C06] "below-its-ema-buys" forall k :: 0 <= k && k < len(res(Ema_Compute, 0)) ==> (res(Nvi_Compute, 0)[k + n.NegativeVolumeIndexEma.IdlePeriod()] < res(Ema_Compute, 0)[k] ==> result[k + n.NegativeVolumeIndex.IdlePeriod() + n.NegativeVolumeIndexEma.IdlePeriod()] == 1)
-//@ ensures[C06] "above-its-ema-sells" forall k :: 0 <= k && k < len(res(Ema_Compute, 0)) ==> (res(Nvi_Compute, 0)[k + n.NegativeVolumeIndexEma.IdlePeriod()] > res(Ema_Compute, 0)[k] ==> result[k + n.NegativeVolumeIndex.IdlePeriod() + n.NegativeVolumeIndexEma.IdlePeriod()] == 0 - 1)
+//@ guarantees[C06] "input-close" len(arg(Nvi_Compute, 0, 0)) == len(snapshots) && (forall k :: 0 <= k && k < len(snapshots) ==> arg(Nvi_Compute, 0, 0)[k] == snapshots[k].Close)
+//@ guarantees[C06] "input-volume" len(arg(Nvi_Compute, 0, 1)) == len(snapshots) && (forall k :: 0 <= k && k < len(snapshots) ==> arg(Nvi_Compute, 0, 1)[k] == snapshots[k].Volume)
+//@ guarantees[C06] "below-its-ema-buys" forall k :: 0 <= k && k < len(res(Ema_Compute, 0)) ==> (res(Nvi_Compute, 0)[k + n.NegativeVolumeIndexEma.IdlePeriod()] < res(Ema_Compute, 0)[k] ==> result[k + n.NegativeVolumeIndex.IdlePeriod() + n.NegativeVolumeIndexEma.IdlePeriod()] == 1)
+//@ guarantees[C06] "above-its-ema-sells" forall k :: 0 <= k && k < len(res(Ema_Compute, 0)) ==> (res(Nvi_Compute, 0)[k + n.NegativeVolumeIndexEma.IdlePeriod()] > res(Ema_Compute, 0)[k] ==> result[k + n.NegativeVolumeIndex.IdlePeriod() + n.NegativeVolumeIndexEma.IdlePeriod()] == 0 - 1)
 //@ ensures[C05] "len" len(snapshots) >= (n.NegativeVolumeIndex.IdlePeriod() + n.NegativeVolumeIndexEma.IdlePeriod()) ==> len(result) == len(snapshots)
 //@ ensures[C05] "len-short" len(result) >= len(snapshots)
 //@ ensures[C05] "warmup-hold" forall kk :: 0 <= kk && kk < min((n.NegativeVolumeIndex.IdlePeriod() + n.NegativeVolumeIndexEma.IdlePeriod()), len(result)) ==> result[kk] == 0
@@ -82,10 +82,10 @@ package volume
 
 //@ func WeightedAveragePriceStrategy.Compute
 //@ requires v.WeightedAveragePrice.Sum.Period >= 1 && consumed(snapshots) == 0
-//@ ensures[C06] "input-close" len(arg(Vwap_Compute, 0, 0)) == len(snapshots) && (forall k :: 0 <= k && k < len(snapshots) ==> arg(Vwap_Compute, 0, 0)[k] == snapshots[k].Close)
-//@ ensures[C06] "input-volume" len(arg(Vwap_Compute, 0, 1)) == len(snapshots) && (forall k :: 0 <= k && k < len(snapshots) ==> arg(Vwap_Compute, 0, 1)[k] == snapshots[k].Volume)
-//@ ensures[C06] "close-below-vwap-buys" forall k :: 0 <= k && k < len(res(Vwap_Compute, 0)) ==> (snapshots[k + v.WeightedAveragePrice.IdlePeriod()].Close < res(Vwap_Compute, 0)[k] ==> result[k + v.WeightedAveragePrice.IdlePeriod()] == 1)
-//@ ensures[C06] "close-above-vwap-sells" forall k :: 0 <= k && k < len(res(Vwap_Compute, 0)) ==> (snapshots[k + v.WeightedAveragePrice.IdlePeriod()].Close > res(Vwap_Compute, 0)[k] ==> result[k + v.WeightedAveragePrice.IdlePeriod()] == 0 - 1)
+//@ guarantees[C06] "input-close" len(arg(Vwap_Compute, 0, 0)) == len(snapshots) && (forall k :: 0 <= k && k < len(snapshots) ==> arg(Vwap_Compute, 0, 0)[k] == snapshots[k].Close)
+//@ guarantees[C06] "input-volume" len(arg(Vwap_Compute, 0, 1)) == len(snapshots) && (forall k :: 0 <= k && k < len(snapshots) ==> arg(Vwap_Compute, 0, 1)[k] == snapshots[k].Volume)
+//@ guarantees[C06] "close-below-vwap-buys" forall k :: 0 <= k && k < len(res(Vwap_Compute, 0)) ==> (snapshots[k + v.WeightedAveragePrice.IdlePeriod()].Close < res(Vwap_Compute, 0)[k] ==> result[k + v.WeightedAveragePrice.IdlePeriod()] == 1)
+//@ guarantees[C06] "close-above-vwap-sells" forall k :: 0 <= k && k < len(res(Vwap_Compute, 0)) ==> (snapshots[k + v.WeightedAveragePrice.IdlePeriod()].Close > res(Vwap_Compute, 0)[k] ==> result[k + v.WeightedAveragePrice.IdlePeriod()] == 0 - 1)
 //@ ensures[C05] "len" len(snapshots) >= (v.WeightedAveragePrice.IdlePeriod()) ==> len(result) == len(snapshots)
 //@ ensures[C05] "len-short" len(result) >= len(snapshots)
 //@ ensures[C05] "warmup-hold" forall kk :: 0 <= kk && kk < min((v.WeightedAveragePrice.IdlePeriod()), len(result)) ==> result[kk] == 0
